@@ -1,7 +1,7 @@
 (* C19 — Division conserves molecules and volume; lineage records are consistent (splitters). *)
 From Coq Require Import ZArith Reals List Bool Arith.
 From BS Require Import Base.Arith Model.Queue Model.Term Model.Propensity Model.Interface Model.Rules Model.Random Model.SSA Model.Splitters Model.Lineage
-                       Proofs.SplitProofs Proofs.SSAProofs Proofs.LineageProofs.
+                       Proofs.SplitProofs Proofs.SSAProofs Proofs.LineageProofs Proofs.LineageIdle.
 Import ListNotations.
 Local Open Scope R_scope.
 
@@ -66,6 +66,21 @@ Theorem C19_cell_rows_are_paths :
   lssa_simulate A eps9 eps7 fuel l ts t_cur t_init V V_init x0 u pos = Done st -> chain A (ln_sim l) x0 (ls_rows st).
 Proof. exact @lssa_rows_are_paths. Qed.
 
+(* "Also after all reactions have become impossible" (reals, 0 < eps7): an iteration in which the total propensity is 0 and no
+   rule stops the cell consumes no random number, changes no count and moves the clock to the next queued time (advancing the
+   queue by dt) or to the final time -- it never enters the reaction branch (defects F11 / F19 were such moves). *)
+Theorem C19_idle_cell_never_fires :
+  forall (l : lin R) eps9 eps7 dt final t_init V_init u st st' tnext rest,
+  0 < eps7 -> ls_todo st = tnext :: rest ->
+  let '(x1, p1) := apply_rules ArithR (sm_rules (ln_sim l)) (Some (ls_V st)) (ls_x st, ls_p st) (ls_time st) dt (ls_rule_step st) in
+  first_true (fun r => krule_check ArithR eps9 r x1 p1 (ls_time st) (ls_V st)) (ln_krules l) 0%Z = (-1)%Z ->
+  first_true (fun r => drule_check ArithR eps9 r x1 p1 (ls_time st) (ls_V st) t_init V_init) (ln_drules l) 0%Z = (-1)%Z ->
+  array_sum ArithR (lin_props ArithR l x1 p1 (ls_V st) (ls_time st)) = 0 ->
+  lssa_iter ArithR eps9 eps7 l dt final t_init V_init u st = Done st' ->
+  ls_pos st' = ls_pos st /\ ls_x st' = x1 /\ ls_rule_step st' = true /\ ls_divided st' = (-1)%Z /\ ls_dead st' = (-1)%Z /\
+  ((ls_time st' = ls_next_q st /\ ls_next_q st' = ls_next_q st + dt) \/ ls_time st' = final).
+Proof. exact lssa_idle_iteration. Qed.
+
 (* Not mechanised (C19_partial): that a Bernoulli sum has the Binomial(n,p) law; the lineage worklist (queue of cells,
    schnitz links, truncated grids of daughters), rule / event noise (normal draws) -- decided by the harness on simulated
    lineages. *)
@@ -77,3 +92,4 @@ Print Assumptions C19_binomial_is_bernoulli_sum.
 Print Assumptions C19_cell_volumes_positive.
 Print Assumptions C19_cell_rows_were_simulated.
 Print Assumptions C19_cell_rows_are_paths.
+Print Assumptions C19_idle_cell_never_fires.
